@@ -143,7 +143,12 @@ func sigKeys(numParts int) []string {
 func (pr *PersistRestorer) Staged(_ context.Context, s channel.Source) error {
 	db := pr.channelDB(s.ID()).NewBatch()
 
-	if err := dbPutSource(db, s, "staging:state", "phase"); err != nil {
+	// A newly staged state starts without signatures: the signature slots must
+	// be rewritten, too, or the signatures of the previously staged state would
+	// be restored together with the new one.
+	numParts := len(s.Params().Parts)
+	keys := append([]string{"staging:state", "phase"}, sigKeys(numParts)...)
+	if err := dbPutSource(db, s, keys...); err != nil {
 		return err
 	}
 
